@@ -112,6 +112,35 @@ fn families(run: &Run) -> Vec<SeriesFam> {
             classify,
         },
     ];
+    // narrow element types with values whose squares / window sums leave the element type's exact range
+    // (50001^2 > i32::MAX and is not an f32; 2 * 2^30 > i32::MAX; 2^30 + 1 is not an f32): the moments must
+    // be accumulated in f64. Kurtosis is left out (50001^4 is not exact in f64 either, conditioning 5.2).
+    let wide_fns = vec![R1::Sum, R1::Mean, R1::Ewm, R1::Wma, R1::Std, R1::Var, R1::Skew];
+    let wide_alpha: Vec<X> = vec![None, Some(1.0), Some(3.0), Some(50001.0), Some(-50001.0)];
+    let level_alpha: Vec<X> = vec![None, Some(1.0), Some(1073741824.0), Some(-1073741824.0)];
+    for (name, alpha, fns, plain) in [
+        ("narrow-inputs", wide_alpha.clone(), wide_fns.clone(), false),
+        ("plain-narrow-inputs", wide_alpha.iter().cloned().filter(|x| x.is_some()).collect::<Vec<X>>(), wide_fns.clone(), true),
+        ("narrow-level", level_alpha.clone(), vec![R1::Mean, R1::Ewm, R1::Wma], false),
+        ("plain-narrow-level", level_alpha.iter().cloned().filter(|x| x.is_some()).collect::<Vec<X>>(), vec![R1::Mean, R1::Ewm, R1::Wma], true),
+    ] {
+        fams.push(SeriesFam {
+            name: name.into(),
+            alpha,
+            max_len: run.pick(4, 5),
+            plain,
+            fns,
+            tys: if plain { vec![ty_p1::<i32, f64>(), ty_p1::<f32, f64>(), ty_p1::<i64, f64>()] } else { vec![ty_v1::<i32, f64>(), ty_v1::<f32, f64>(), ty_v1::<i64, f64>(), ty_v1::<Option<i32>, f64>()] },
+            paths: vec![Path::Ret],
+            law: Law::Value,
+            w_lo: 1,
+            w_extra: 2,
+            min_len: 0,
+            scales: vec![],
+            cfg_ok: cfg_all,
+            classify,
+        });
+    }
     if !run.quick() || run.replay.is_some() {
         // thorough: one more symbol of depth on the five-letter alphabet, f64 -> f64 only
         let mut deeper = clone_shallow(&fams[0]);
@@ -140,7 +169,9 @@ fn main() {
         let fam_name = case["family"].as_str().unwrap_or("");
         for f in &fams {
             if fam_name.starts_with(&f.name) {
-                if case["trace"].is_string() {
+                if case["shape"].is_string() {
+                    check_structured(f, !run.quick(), 2, &mut ctx);
+                } else if case["trace"].is_string() {
                     run_traces(&run, f, &mut ctx);
                 } else {
                     f.check_word(&syms_from_json(&case["word"]), &mut ctx);
@@ -159,6 +190,9 @@ fn main() {
     run_traces(&run, &fams[0], &mut tctx);
     run_traces(&run, &fams[1], &mut tctx);
     total.merge(tctx);
+    // large-scope structured families (windows up to 300): sharded by family x tier grid entry
+    total.merge(check_structured_par(&fams[0], !run.quick(), 2, run.threads));
+    total.merge(check_structured_par(&fams[1], !run.quick(), 2, run.threads));
     let meta = Meta {
         rule: "history trees: every word over the value alphabet up to the stated length, every window 1..=len+2, every min_periods in {omitted} U 0..=w, every listed entry point, element-type pair and output path; every output position is compared with the statistic recomputed from the window. Plus de Bruijn long traces. Non-trivial = word with at least one non-null element (distinct words counted).".into(),
         bounds: json!({
